@@ -771,7 +771,7 @@ func (m *c16Model) markIncludes(n, depth int) {
 
 func TestC16(t *testing.T) {
 	core.Run(t, "C16",
-		"histories (2-20 steps) of loader edits (set/delete of name+ext with text/unparsable/extends/include/includeIfExists content), injected loader faults (Open fails, reader fails midway) and repairs, GetTemplate, Set.Parse with extends/import (absolute and relative names; also under the very name of the template it extends), Execute, Execute of a template object kept from an earlier lookup, over 7 names (two pairs differing in case only); configurations development mode x default/recording Cache (also one that admits nothing: Put recorded and dropped) x 8 extension lists (dotted and dotless); also: four spellings of the development mode option (DevelopmentMode(b), InDevelopmentMode() or nothing, and two contradicting ones of which the later counts); a second Set over the same Loader and Cache object asking for what the first one remembered; round 10: a template that asks includeIfExists and then fails when executed; oracle = model of what must/may be remembered asserted on Loader/Cache traces and pointer identity; non-trivial = edit after load, fault-then-repair-then-lookup, or the same name requested >=3 times",
+		"histories (2-20 steps) of loader edits (set/delete of name+ext with text/unparsable/extends/include/includeIfExists content), injected loader faults (Open fails, reader fails midway) and repairs, GetTemplate, Set.Parse with extends/import (absolute and relative names; also under the very name of the template it extends), Execute, Execute of a template object kept from an earlier lookup, over 7 names (two pairs differing in case only); configurations development mode x default/recording Cache (also one that admits nothing: Put recorded and dropped) x 8 extension lists (dotted and dotless); also: four spellings of the development mode option (DevelopmentMode(b), InDevelopmentMode() or nothing, and two contradicting ones of which the later counts); a second Set over the same Loader and Cache object asking for what the first one remembered; round 10: a template that asks includeIfExists and then fails when executed; round 11: two paths with equal 32-bit FNV-1a hashes on the default cache; oracle = model of what must/may be remembered asserted on Loader/Cache traces and pointer identity; non-trivial = edit after load, fault-then-repair-then-lookup, or the same name requested >=3 times",
 		genC16, judgeC16)
 }
 
